@@ -351,6 +351,20 @@ def rule_D6_nondet(tree: Tree) -> RuleResult:
                         bad.append((n, f"call of {d or n.func.attr}"))
             if isinstance(n, ast.Attribute) and dotted(n) in ("os.environ",):
                 bad.append((n, "reads os.environ"))
+            # text-mode open() without an explicit encoding decodes with the locale's encoding: the same file is read differently (or not at all) under LANG=C
+            if isinstance(n, ast.Call) and dotted(n.func) in ("open", "io.open"):
+                mode = try_fold(n.args[1]) if len(n.args) > 1 else next((try_fold(k.value) for k in n.keywords if k.arg == "mode"), "r")
+                if isinstance(mode, str) and "b" not in mode and not any(k.arg == "encoding" for k in n.keywords) and len(n.args) < 4:
+                    bad.append((n, "text-mode open() without encoding= (decoding depends on the locale)"))
+            # set.pop() returns an arbitrary element: for str / bytes elements the one that comes out depends on the per-process hash seed
+            if isinstance(n, ast.Call) and isinstance(n.func, ast.Attribute) and n.func.attr == "pop" and not n.args and not n.keywords:
+                recv = n.func.value
+                set_attrs_ = _set_typed_attrs(tree)
+                local_sets_ = {dotted(a.targets[0]) for a in body_walk(f.node) if isinstance(a, ast.Assign) and len(a.targets) == 1 and dotted(a.targets[0])
+                               and _is_set_expr(a.value, set_attrs_ | {dotted(b.targets[0]) for b in body_walk(f.node) if isinstance(b, ast.Assign) and len(b.targets) == 1
+                                                                    and dotted(b.targets[0]) and _is_set_expr(b.value, set_attrs_)})}
+                if _is_set_expr(recv, set_attrs_) or dotted(recv) in local_sets_:
+                    bad.append((n, "set.pop() (arbitrary element, hash-seed dependent)"))
             # text written to stdout / stderr outside the logging framework is encoded with the locale of the terminal: a non-ASCII character raises
             # UnicodeEncodeError under LANG=C and the exception changes what is exported
             if isinstance(n, ast.Call) and dotted(n.func) in ("print", "sys.stdout.write", "sys.stderr.write"):
